@@ -358,6 +358,64 @@ def strat_interleaved(draw, tier):
     return {"depth": depth, "first_planetary": draw(st.booleans()), "mode": draw(st.sampled_from(["zip", "keep", "pyramids"])), "pos": draw(gens.positions(depth, 1))}
 
 
+def planar_tile_area(n, x, y, planetary):
+    """area of a small tile from its two triangles' edge vectors (relative error ~ the tile's area, < 5e-6 from level 10 on;
+    the spherical-excess formula loses digits for tiny triangles)"""
+    c, inc = rt.tile_corners(n, x, y, planetary)
+    ul, ur, lr, ll = c
+
+    def tri(a, b, cc):
+        return 0.5 * float(np.linalg.norm(np.cross(b - a, cc - a)))
+
+    return tri(ul, ur, ll) + tri(ur, lr, ll) if inc else tri(ul, ur, lr) + tri(ul, lr, ll)
+
+
+def exec_deep_area(case):
+    """areas of deep tiles (levels 11-20), biased to the special geometry: next to a pole, on the seam, on the quadrant
+    lines and diagonals. toast_tile_area agrees with the reference to 3e-5 there on the unchanged tree [observed]; the
+    tolerance is 2e-3, and the four children must add up to the parent within 4e-3."""
+    from toasty import toast
+    from toasty.pyramid import Pos
+
+    n, x, y = case["pos"]
+    planetary = case["planetary"]
+    with toasty_call("area", f"area of tile {(n, x, y)}"):
+        a = float(toast.toast_tile_area(toast.create_single_tile(Pos(n, x, y), coordsys=cs_of(planetary))))
+    ref = planar_tile_area(n, x, y, planetary)
+    if not np.isfinite(a) or a <= 0 or abs(a - ref) > 2e-3 * ref:
+        raise Violation("area", f"toast_tile_area of {(n, x, y)} ({'planetary' if planetary else 'astronomical'}) = {a!r}, reference {ref!r}")
+    if case.get("children"):
+        with toasty_call("area", f"areas of the children of {(n, x, y)}"):
+            tot = sum(float(toast.toast_tile_area(toast.create_single_tile(Pos(*c), coordsys=cs_of(planetary)))) for c in rp.children((n, x, y)))
+        if not np.isfinite(tot) or abs(tot - a) > 4e-3 * a:
+            raise Violation("area-children", f"children of {(n, x, y)} ({'planetary' if planetary else 'astronomical'}) have total area {tot!r}, parent {a!r}")
+    return Outcome(classes=[f"level{n}", case["where"], "planetary" if planetary else "astronomical"], nontrivial=True)
+
+
+@st.composite
+def strat_deep_area(draw, tier):
+    n = draw(st.integers(11, 20))
+    m = 2**n
+    h = m // 2
+    d = draw(st.integers(0, 24))
+    e = draw(st.integers(0, 24))
+    r = draw(st.integers(0, m - 1))
+    where = draw(st.sampled_from(["north-pole", "south-pole", "quadrant-line", "diagonal", "square-edge", "anywhere"]))
+    if where == "north-pole":
+        x, y = draw(st.sampled_from([h + d, h - 1 - d])), draw(st.sampled_from([h + e, h - 1 - e]))
+    elif where == "south-pole":
+        x, y = draw(st.sampled_from([d, m - 1 - d])), draw(st.sampled_from([e, m - 1 - e]))
+    elif where == "quadrant-line":
+        x, y = draw(st.sampled_from([(draw(st.sampled_from([h + d, h - 1 - d])), r), (r, draw(st.sampled_from([h + d, h - 1 - d])))]))
+    elif where == "diagonal":
+        x, y = draw(st.sampled_from([(r, r), (r, m - 1 - r), (min(m - 1, r + d), r), (r, max(0, m - 1 - r - d))]))
+    elif where == "square-edge":
+        x, y = draw(st.sampled_from([(d, r), (m - 1 - d, r), (r, d), (r, m - 1 - d)]))
+    else:
+        x, y = r, draw(st.integers(0, m - 1))
+    return {"pos": [n, int(x) % m, int(y) % m], "planetary": draw(st.booleans()), "where": where, "children": draw(st.booleans())}
+
+
 PARTS = [
     Part("all_tiles", exec_bulk, enumerate=enum_bulk, shards={"quick": 12, "thorough": 16}, budget_s={"quick": 80, "thorough": 1500},
          describe="every tile of every level to depth 6/8, both systems, full enumeration route; structure and area checks"),
@@ -369,5 +427,7 @@ PARTS = [
          describe="toast_tile_for_point at generated points and depths; the tile is judged for the position it reports"),
     Part("interleaved_systems", exec_interleaved, strategy=strat_interleaved, examples={"quick": 240, "thorough": 3000}, shards={"quick": 4, "thorough": 16},
          describe="both coordinate systems used alternately in one process"),
+    Part("deep_areas", exec_deep_area, strategy=strat_deep_area, examples={"quick": 2400, "thorough": 100000}, shards={"quick": 8, "thorough": 16},
+         describe="toast_tile_area of tiles at levels 11-20 next to the poles, on the seam / quadrant lines / diagonals / square edges, and anywhere: against the reference (2e-3) and against the sum of the four children (4e-3)"),
 ]
 PARTS[0].exhaustive_tiers = {"quick", "thorough"}
